@@ -34,4 +34,34 @@ CLAIMS = {
           "sequential sessions (exact after drain), undrained filters and concurrent producers validated by the model as acceptor.",
   "note": TB + "Modelled not verified: Go channels/select as FIFO queue with capacity 16 and fair scheduling; no real-time bound; Resize not covered.",
  },
+ "C04": {
+  "technique": "Lean 4 proof (reference-count invariant and refinement of the fid table to the protocol's valid-fid set, over all histories) + differential correspondence with the real framework",
+  "text": "step_valid / fids_refine_spec: for every request history of any length and every implementation behaviour, the mirror of "
+          "Process/handlers/PostProcess keeps every fid at exactly one reference between requests and the set of fids in the table is "
+          "exactly the set the protocol history (requests and the replies sent) determines (specValid, written from the statement); "
+          "unknown_fid_refused, attach_in_use_refused, auth_in_use_refused: invalid / already bound fids are refused with the stated "
+          "error, nothing forwarded, table untouched; conn_private. Correspondence: ~2.5k (quick) random histories on a real Conn with a "
+          "scripted implementation compare reply, calls, FidDestroy log and the whole fid table after every request; an independent Go "
+          "oracle of the property runs on the same observations.",
+  "note": TB + "Sequential histories only (each request answered before the next is sent); destroy-exactly-once is checked by the oracle "
+          "and the differential run, its Lean statement is future work; user binding is compared, not yet a theorem.",
+ },
+ "C05": {
+  "technique": "Lean 4 proof (guard theorems for every rule of the statement, for all states, arguments and implementations; no-wrap count rule over all 32-bit counts) + differential correspondence",
+  "text": "walk_refused, open_refused, create_refused, write_refused, read_count_refused, write_count_refused (for every UInt32 count, "
+          "msize>=24), read_forwarded/write_forwarded/open_forwarded (legal requests reach the implementation exactly once with fid, "
+          "user and arguments unchanged), auth_gate (no attach reaches the implementation unless AuthCheck was called on exactly "
+          "that attach and accepted). Correspondence as C04 plus the C05 rule oracle on the real framework.",
+  "note": TB + "'effects visible to every later request' is the ordering PostProcess-before-queue, covered by the differential run here "
+          "and by the lifecycle model of C03; create/walk forwarded-once are covered by the oracle, not yet theorems.",
+ },
+ "C12": {
+  "technique": "Lean 4 proof (negotiation specification, msize monotone and >= IOHDRSZ, every reply fits msize, frame-size gate) + differential correspondence",
+  "text": "negotiate_spec (refuse iff client msize < 24; else msize=min, .u iff both), rversion_fits, msize_monotone, "
+          "no_reply_exceeds_msize (every reply of every request under every implementation answer is <= msize bytes on the wire, "
+          "including shortened errors), frame_size_gate (a frame longer than msize ends the connection unexecuted). Correspondence: "
+          "negotiation grid and renegotiation mid-history against the real server; oracle checks lengths of real reply frames.",
+  "note": TB + "Client-side Connect, the dialect of Rstat/Rerror encodings and Rread<=count for Ufs are checked by the harness oracle; "
+          "their theorems live with C09/C14 when built.",
+ },
 }
